@@ -3,6 +3,8 @@ CONSTANTS
   MaxItems = 8
   WireWeight = 30
   WithAC = TRUE
+  Randomised = TRUE
+  MaxLabels = 3
   MinItems = 4
   Syms = {"R", "G", "Z", "C", "L", "lamp", "sw_closed", "V", "I", "ACV", "ACI", "CV"}
 INVARIANT Check
